@@ -8,6 +8,7 @@ by the `srand` correspondence stream.
 -/
 import MstVerif.Proofs.SyncN
 import MstVerif.Proofs.PeerWins3
+import MstVerif.Proofs.SyncStale
 
 namespace Mst.Props
 open Mst
@@ -52,6 +53,41 @@ theorem C06_live (lvl : K → Nat) (hlvl : ∀ k, lvl k < 255) (hc : HashCfg K V
       (∀ r₁ ∈ rs, ∀ r₂ ∈ rs, r₁.store = r₂.store ∧
         (r₁.tree.genRootHash hc).rootHash = (r₂.tree.genRootHash hc).rootHash) :=
   syncRun_live lvl hlvl hc hnc n ops hw sweeps hs hlen
+
+/-! ### Stale in-flight snapshots (scope note (ii) lifted)
+`SyncOp2` (Model/Sync.lean) adds `hash r` and `fetchStale recv send ranges`: the receiver absorbs the
+sender's CURRENT entries inside ARBITRARY ranges — which subsumes every pull whose ranges were
+computed from snapshots taken earlier, partially applied, duplicated or reordered. -/
+
+/-- Refinement with stale fetches, any merge rule: no panic, every tree mirrors its store. -/
+theorem C06_refine_stale (lvl : K → Nat) (hlvl : ∀ k, lvl k < 255) (hc : HashCfg K V D) (m : Merge)
+    (rs : List (Replica K V D)) (hrs : ∀ r ∈ rs, RInv lvl hc r) (ops : List (SyncOp2 K V)) :
+    ∃ rs', syncRun2 lvl hc m rs ops = .ok rs' ∧ rs'.length = rs.length ∧ ∀ r ∈ rs', RInv lvl hc r :=
+  syncRun2_inv lvl hlvl hc m rs hrs ops
+
+/-- Safety with stale fetches (join): nothing is lost, nothing invented. -/
+theorem C06_safe_stale (lvl : K → Nat) (hlvl : ∀ k, lvl k < 255) (hc : HashCfg K V D)
+    (n : Nat) (ops : List (SyncOp2 K V))
+    (hw : ∀ op ∈ ops, match op with | .write r _ _ => r < n | _ => True) :
+    ∃ rs, syncRun2 lvl hc .joinMax (freshReplicas n : List (Replica K V D)) ops = .ok rs ∧ rs.length = n ∧
+      (∀ r ∈ rs, RInv lvl hc r) ∧
+      (∀ r ∈ rs, ∀ k, optLe (lookupKV k r.store) (written2 ops k)) ∧
+      (∀ k v, written2 ops k = some v → ∃ r ∈ rs, lookupKV k r.store = some v) :=
+  syncRun2_safe lvl hlvl hc n ops hw
+
+/-- Liveness after ANY schedule including stale fetches: enough fair sweeps of fresh pulls bring
+every replica to the join of everything written, with equal root hashes. -/
+theorem C06_live_stale (lvl : K → Nat) (hlvl : ∀ k, lvl k < 255) (hc : HashCfg K V D)
+    (hnc : NoCollisions hc) (n : Nat) (ops : List (SyncOp2 K V))
+    (hw : ∀ op ∈ ops, match op with | .write r _ _ => r < n | _ => True)
+    (sweeps : List (List (SyncOp K V))) (hs : ∀ s ∈ sweeps, IsSweep n s)
+    (hlen : n * countWrites2 ops + 1 ≤ sweeps.length) :
+    ∃ rs₀ rs, syncRun2 lvl hc .joinMax (freshReplicas n : List (Replica K V D)) ops = .ok rs₀ ∧
+      syncRun lvl hc .joinMax rs₀ sweeps.flatten = .ok rs ∧ rs.length = n ∧
+      (∀ r ∈ rs, ∀ k, lookupKV k r.store = written2 ops k) ∧
+      (∀ r₁ ∈ rs, ∀ r₂ ∈ rs, r₁.store = r₂.store ∧
+        (r₁.tree.genRootHash hc).rootHash = (r₂.tree.genRootHash hc).rootHash) :=
+  syncRun2_live lvl hlvl hc hnc n ops hw sweeps hs hlen
 
 /-- Scope note (i) as a theorem: under PEER-WINS with three replicas a fair schedule — every ordered
 pair of replicas pulls in every period — never converges: after the three initial writes and any
